@@ -39,8 +39,10 @@ func NewSolicitMountedStreamWithErr(err error) SolicitMountedStream {
 
 // AcceptMountedStream claims ownership of the stream.
 func (s *solicitMountedStream) AcceptMountedStream() (link.MountedStream, bool, error) {
+	verifGate("accept.lock")
 	s.mu.Lock()
 	defer s.mu.Unlock()
+	verifGate("accept.locked")
 
 	if s.err != nil {
 		return nil, false, s.err
@@ -64,6 +66,7 @@ func (s *solicitMountedStream) IsAccepted() bool {
 func (s *solicitMountedStream) Close() bool {
 	s.mu.Lock()
 	defer s.mu.Unlock()
+	verifGate("close.locked")
 
 	if s.accepted || s.ms == nil {
 		return false
